@@ -33,4 +33,9 @@ TEXT = {
    level='Unbounded deductive proof (Verus/Z3) on the extracted bodies of Frame::rollbacks and rollbacks_: for any number of rows and any repetition pattern with ids in [-123, i32::MAX-123], the mask has one bool per row; keep-first marks row i iff some j<i has the same id, keep-last iff some j>i has. A second contract on the same body without the upper bound exposes the i32 overflow (known finding F9).',
    note='Assumed: shim contracts for PrimitiveArray::values_iter/len, Iterator::enumerate/rev/max/next (sequence semantics from the std docs); rewrite rules R5 (for -> loop/next), R6 (map_or), R14 (named tail); the corollaries (one unmarked row per distinct id; no repeats => all false) follow from the stated postconditions and are not separately mechanised.',
    design_ref='DESIGN.md §5 C15'),
+ 'C11': dict(
+   technique='Verus representation invariant on the extracted HashingReader (hasher.fed == bytes delivered) + contracts on new/read/seek/into_digest/format_hash',
+   level='Deductive proof (Verus/Z3) on the extracted HashingReader: for ANY inner reader and ANY sequence of short reads, while hashing is on the hasher has been fed exactly the bytes delivered (invariant preserved by read); new() hashes iff requested; seek() switches hashing off; into_digest() is None iff not hashing and otherwise "xxh3:" + 16 lowercase hex digits of XXH3-64(consumed bytes).',
+   note='Assumed: std::io::Read::read_exact/by_ref are what std documents (built from `read`); Xxh3::{new,update,digest} accumulate bytes and XXH3-64 itself is trusted/uninterpreted; `format!("xxh3:{:016x}", d)` has std\'s documented meaning (macro shadowed per literal: any other format string fails the clause). The de::read part (seek only when not hashing; hash stored in the game) and the .slpp passthrough are covered where the read/peppi units claim them.',
+   design_ref='DESIGN.md §5 C11'),
 }
